@@ -73,7 +73,8 @@ def small_scope(focus, quick):
     return progs
 
 
-def run(ctx, focus, n_random_quick, n_random_thorough, max_actors=4, max_ops=6, gen=None, extra=()):
+def run(ctx, focus, n_random_quick, n_random_thorough, max_actors=4, max_ops=6, gen=None, extra=(), nontrivial=None,
+        compare_outcomes=True, rule_note=""):
     quick = ctx.quick
     progs = list(REGRESSION) + list(extra) + small_scope(focus, quick)
     n_rand = n_random_quick if quick else n_random_thorough
@@ -93,13 +94,13 @@ def run(ctx, focus, n_random_quick, n_random_thorough, max_actors=4, max_ops=6, 
             uniq.append(p)
     progs = uniq
     for p in progs:
-        ctx.count(p, nontrivial=K.shared_objects(p))
+        ctx.count(p, nontrivial=(nontrivial or K.shared_objects)(p))
     for p in progs[:2] + progs[-3:]:
         ctx.sample(K.prog_brief(p), limit=6)
     ctx.cov["programs"] = len(progs)
     ctx.cov["rule"] = ("programs = regression cases + small-scope enumeration for focus '%s' + %d seeded random programs; "
-                       "non-trivial = at least two actors touch a common object; distinct by canonical JSON hash" %
-                       (focus, n_rand))
+                       "non-trivial = %s; distinct by canonical JSON hash" %
+                       (focus, n_rand, rule_note or "at least two actors touch a common object"))
 
     # ---------------- M: exhaustive exploration of the reference semantics
     r, outs = K.mc_explore(ctx, progs, timeout=600 if quick else 3000, coverage=False)
@@ -148,7 +149,7 @@ def run(ctx, focus, n_random_quick, n_random_thorough, max_actors=4, max_ops=6, 
     bad_prog = {x["prog"] for x in rej}
     n_out = 0
     for i, fac, t in runs:
-        if i in bad_prog:
+        if i in bad_prog or not compare_outcomes:
             continue
         io = K.impl_outcome(progs[i], t)
         n_out += 1
